@@ -36,7 +36,7 @@ def RULE(tier):
         "(incl. duplicate spellings, prefix conflicts a.b + a.b.c, scalar-prefix conflicts), kwargs form a__b=, exit innermost; after every step the real "
         "private config is compared with a deepcopy snapshot-stack model (exit restores exactly; a raising set leaves config unchanged; inside the "
         "context get() returns the value under both spellings). (u) update/merge for ALL ordered pairs of 47 nested dicts x 3 priorities x 4 defaults; "
-        "(e) collect_env for all environments of <= 2 variables over 7 names x 9 values; (s) serialize/deserialize of all those dicts. "
+        "(e) collect_env for all environments of <= 2 variables over 7 names x 9 values; (s) serialize/deserialize of all those dicts and of every string of length <= 3 over {~,?,>,a,/} at every byte offset modulo 3. "
         "non-trivial = history length >= 2 / dict pair with a shared key."
     )
 
@@ -291,7 +291,14 @@ def run_shard(shard, ctx):
             if got != want:
                 ctx.violation("collect_env-wrong", case, f"collect_env({e!r}) = {got!r}, documented {want!r}")
     elif kind == "ser":
-        for i, d in enumerate(small_dicts() + [[1, "a", None, {"k": [1.5, True]}], "text", 3]):
+        # strings whose JSON text puts every character of a small punctuation alphabet at every offset modulo 3
+        # (base64 groups 3 bytes; '~', '?', '>' encode to the url-safe characters '-' and '_')
+        punct = []
+        for klen in (1, 2, 3):
+            for L in (1, 2, 3):
+                for t in itertools.product("~?>a/", repeat=L):
+                    punct.append({"k" * klen: "".join(t)})
+        for i, d in enumerate(small_dicts() + [[1, "a", None, {"k": [1.5, True]}], "text", 3] + punct):
             ctx.case(("ser", i), nontrivial=True)
             ctx.transition()
             try:
